@@ -392,6 +392,13 @@ def check_converters(rep, repo):
 
 
 def check(chk, repo):
+    _check(chk, repo)
+    # identifiers handed to the graph constructors (e.g. the index arrays of split_with_index) reach the nodes
+    from .c10 import check_constructor_forwarding
+    check_constructor_forwarding(Rep(chk, repo), repo)
+
+
+def _check(chk, repo):
     chk.explanation = EXPLANATION
     rep = Rep(chk, repo)
     a = check_split(rep, repo, "split", False)
